@@ -5,7 +5,8 @@ package index
 // VerifGate, when set, is called at the gate points of the index kv store
 // (verification harness only): "kvstore.load" after the persisted bucket was loaded and before
 // it is added to the bucket cache, "kvstore.miss" after a failed lookup and before the value is created,
-// "schemastore.flushed" after the schema store wrote its immutable schemas and before it marks them persisted.
+// "schemastore.flushed" after the schema store wrote its immutable schemas and before it marks them persisted,
+// "schemastore.loaded" after a schema was loaded from the kv store and before it is cached / returned.
 var VerifGate func(point string)
 
 func verifGate(point string) {
